@@ -8,6 +8,9 @@ CONSTANTS
   NReps <- MCNRepsQuick
   IndexBySortedId = TRUE
   CutAtN = FALSE
+  Sharing = FALSE
+  ReplaceByKey = TRUE
+  MaxReAdd = 0
   CanonicalFirst = TRUE
 INVARIANTS TypeOK C42_SameSet C42_AtLeastN C42_AllWhenDisabled
 CHECK_DEADLOCK FALSE
